@@ -2,6 +2,7 @@ import Driver.Sexp
 import Pcore.Model.LoaderSeq
 import Pcore.Model.LoaderTS
 import Pcore.Model.LoaderDep
+import Pcore.Model.LoaderKey
 /-! Driver op for C12: `hist (tree NODE*) (steps STEP*)` — syntax and output format in harness/c12/c12.go. -/
 namespace C12
 open Sx Pcore.LoaderSeq
@@ -174,7 +175,40 @@ def dump (s : Sys) : String :=
     | e :: r => s!" {i}:\{{entsStr e}}" ++ go (i + 1) r
   go 0 s.es
 
+/-! `tn (u xNS xNAME xAUTH) (ops OP*)` — a script of method calls on one typed name (harness/c12/key.go) -/
+
+def kopOf : Sexp → Option KOp
+  | .atom "key" => some .key
+  | .atom "name" => some .name
+  | .atom "qual" => some .qual
+  | .atom "parts" => some .parts
+  | .atom "child" => some .child
+  | .atom "parent" => some .parent
+  | .atom "fromkey" => some .fromkey
+  | _ => none
+
+def hexChars (cs : List Char) : String := "x" ++ hexOfBytes (enc cs)
+
+def koutStr : KOut → String
+  | .key bs => "key x" ++ hexOfBytes bs
+  | .name cs => "name " ++ hexChars cs
+  | .bool b => boolStr b
+  | .parts ps => "parts" ++ String.join (ps.map fun p => " " ++ hexChars p)
+  | .moved => "moved"
+  | .nil => "nil"
+  | .reported c => "reported " ++ c
+  | .fault => "fault"
+
+def execTn : List Sexp → String
+  | [.list [.atom "u", ns, nm, au], .list (.atom "ops" :: ops)] =>
+    match ns.str?, nm.str?, au.str?, ops.mapM kopOf with
+    | some ns, some nm, some au, some ops =>
+      " ; ".intercalate ((runK (TN.mk' ns.toList nm.toList au.toList) ops).map koutStr)
+    | _, _, _, _ => "bad-op"
+  | _ => "bad-op"
+
 def exec : List Sexp → String
+  | .atom "tn" :: rest => execTn rest
   | [.atom "hist", .list (.atom "tree" :: nodes), .list (.atom "steps" :: steps)] =>
     match treeOf nodes with
     | none => "bad-op"
